@@ -69,8 +69,33 @@ def _has_return(stmts):
     return any(isinstance(n, ast.Return) for s in stmts for n in ([s] + list(_shallow(s))))
 
 
+def _drop_tail_void_returns(stmts):
+    """a `return` without a value in tail position (last statement of the function, of a branch / handler / with-body that is itself in tail position) only says
+    "fall off the end": it is removed (in place), so that `try: X except E: return` at the end of a helper is an ordinary statement"""
+    if not stmts:
+        return
+    last = stmts[-1]
+    if isinstance(last, ast.Return) and (last.value is None or (isinstance(last.value, ast.Constant) and last.value.value is None)):
+        if len(stmts) > 1:
+            stmts.pop()
+            _drop_tail_void_returns(stmts)
+        else:
+            stmts[-1] = ast.copy_location(ast.Pass(), last)
+    elif isinstance(last, ast.If):
+        _drop_tail_void_returns(last.body)
+        _drop_tail_void_returns(last.orelse)
+    elif isinstance(last, ast.Try) and not last.finalbody:
+        _drop_tail_void_returns(last.body if not last.orelse else last.orelse)
+        for hd in last.handlers:
+            _drop_tail_void_returns(hd.body)
+    elif isinstance(last, ast.With):
+        _drop_tail_void_returns(last.body)
+
+
 class Helper:
     def __init__(self, qual, module, cls, node):
+        if not any(isinstance(x, ast.Return) and x.value is not None and not (isinstance(x.value, ast.Constant) and x.value.value is None) for x in _shallow(node)):
+            _drop_tail_void_returns(node.body)          # (only for procedures: nothing returns a value)
         self.qual = qual
         self.module = module
         self.cls = cls          # ClassDef or None
@@ -1860,7 +1885,7 @@ def specialise_fresh_optional_params(modules, bparams=None):
             if stores(st, pname):
                 return None
             out.append(subst(st, pname, val))
-        return out or [ast.Pass()]
+        return _fold(out) or [ast.Pass()]
     for m in modules.values():
         fns = []
         for st in m.tree.body:
@@ -1967,8 +1992,26 @@ def canonical_loop_guards(modules):
                     n += 1
                     return ast.copy_location(ast.While(test=neg, body=w.body[1:], orelse=[]), w)
             return w
+    class R(ast.NodeTransformer):
+        """the same with `return` (no value) when the loop is the last statement of its function: leaving the loop and leaving the function coincide"""
+        def visit_FunctionDef(self, fn):
+            nonlocal n
+            self.generic_visit(fn)
+            if fn.body and isinstance(fn.body[-1], ast.While):
+                w = fn.body[-1]
+                if isinstance(w.test, ast.Constant) and w.test.value in (True, 1) and not w.orelse and len(w.body) >= 2:
+                    first = w.body[0]
+                    if isinstance(first, ast.If) and not first.orelse and len(first.body) == 1 and isinstance(first.body[0], ast.Return) \
+                            and (first.body[0].value is None or (isinstance(first.body[0].value, ast.Constant) and first.body[0].value.value is None)) \
+                            and not any(isinstance(x, ast.Return) and x.value is not None and not (isinstance(x.value, ast.Constant) and x.value.value is None)
+                                        for x in ast.walk(fn) if not isinstance(x, (ast.FunctionDef, ast.Lambda)) or x is fn):
+                        c = first.test
+                        neg = c.operand if isinstance(c, ast.UnaryOp) and isinstance(c.op, ast.Not) else ast.UnaryOp(op=ast.Not(), operand=c)
+                        n += 1
+                        fn.body[-1] = ast.copy_location(ast.While(test=neg, body=w.body[1:], orelse=[]), w)
+            return fn
     for m in modules.values():
-        m.tree = ast.fix_missing_locations(T().visit(m.tree))
+        m.tree = ast.fix_missing_locations(R().visit(T().visit(m.tree)))
     return [('<package>', [], '%d `while True: if c: break` loops written with their guard' % n)] if n else []
 
 
@@ -2017,6 +2060,76 @@ def simplify_bool_comparisons(modules):
     for m in modules.values():
         m.tree = ast.fix_missing_locations(T().visit(m.tree))
     return n
+
+
+# ----------------------------------------------------------------------------------------------- i = 0; while i < len(L): ... L[i] ...; i += 1
+
+def canonical_index_loops(modules):
+    """the counting loop over a local list
+           i = 0
+           while i < len(L):  BODY (reads L[i], never i otherwise);  i += 1
+       where BODY neither rebinds i or L nor mutates L and has no continue, is `for x in L: BODY[L[i] := x]`."""
+    n = 0
+    MUT = {'append', 'extend', 'insert', 'pop', 'remove', 'clear', 'sort', 'reverse', 'popleft', 'appendleft', 'rotate'}
+
+    def rewrite(stmts):
+        nonlocal n
+        out = []
+        k = 0
+        while k < len(stmts):
+            st = stmts[k]
+            for fld in ('body', 'orelse', 'finalbody'):
+                sub = getattr(st, fld, None)
+                if isinstance(sub, list) and sub and isinstance(sub[0], ast.stmt) and not isinstance(st, (ast.FunctionDef, ast.ClassDef)):
+                    setattr(st, fld, rewrite(sub))
+            if isinstance(st, ast.Try):
+                for hd in st.handlers:
+                    hd.body = rewrite(hd.body)
+            nxt = stmts[k + 1] if k + 1 < len(stmts) else None
+            done = False
+            if isinstance(st, ast.Assign) and len(st.targets) == 1 and isinstance(st.targets[0], ast.Name) and isinstance(st.value, ast.Constant) and st.value.value == 0 \
+                    and isinstance(nxt, ast.While) and not nxt.orelse and len(nxt.body) >= 2:
+                i = st.targets[0].id
+                t = nxt.test
+                if isinstance(t, ast.Compare) and len(t.ops) == 1 and isinstance(t.ops[0], ast.Lt) and isinstance(t.left, ast.Name) and t.left.id == i \
+                        and isinstance(t.comparators[0], ast.Call) and isinstance(t.comparators[0].func, ast.Name) and t.comparators[0].func.id == 'len' \
+                        and len(t.comparators[0].args) == 1 and isinstance(t.comparators[0].args[0], ast.Name):
+                    L = t.comparators[0].args[0].id
+                    last = nxt.body[-1]
+                    body = nxt.body[:-1]
+                    inc = isinstance(last, ast.AugAssign) and isinstance(last.target, ast.Name) and last.target.id == i and isinstance(last.op, ast.Add) \
+                        and isinstance(last.value, ast.Constant) and last.value.value == 1
+                    nodes = [x for b in body for x in ast.walk(b)]
+                    reads_i = [x for x in nodes if isinstance(x, ast.Name) and x.id == i]
+                    subs = [x for x in nodes if isinstance(x, ast.Subscript) and isinstance(x.value, ast.Name) and x.value.id == L and isinstance(x.slice, ast.Name) and x.slice.id == i
+                            and isinstance(x.ctx, ast.Load)]
+                    ok = inc and len(reads_i) == len(subs) and subs \
+                        and not any(isinstance(x, ast.Name) and x.id in (i, L) and isinstance(x.ctx, (ast.Store, ast.Del)) for x in nodes) \
+                        and not any(isinstance(x, (ast.Continue, ast.FunctionDef, ast.Lambda)) for x in nodes) \
+                        and not any(isinstance(x, ast.Call) and isinstance(x.func, ast.Attribute) and x.func.attr in MUT and isinstance(x.func.value, ast.Name) and x.func.value.id == L for x in nodes) \
+                        and not any(isinstance(x, ast.Name) and x.id == i for s2 in stmts[k + 2:] for x in ast.walk(s2))
+                    if ok:
+                        var = '%s_item' % L
+
+                        class S(ast.NodeTransformer):
+                            def visit_Subscript(self, x):
+                                if any(x is y for y in subs):
+                                    return ast.copy_location(ast.Name(id=var, ctx=ast.Load()), x)
+                                return self.generic_visit(x)
+                        new_body = [S().visit(b) for b in body]
+                        out.append(ast.copy_location(ast.For(target=ast.Name(id=var, ctx=ast.Store()), iter=ast.Name(id=L, ctx=ast.Load()), body=new_body, orelse=[]), nxt))
+                        n += 1
+                        k += 2
+                        done = True
+            if not done:
+                out.append(st)
+                k += 1
+        return out
+    for m in modules.values():
+        for fn in [x for x in ast.walk(m.tree) if isinstance(x, ast.FunctionDef)]:
+            fn.body = rewrite(fn.body)
+        ast.fix_missing_locations(m.tree)
+    return [('<package>', [], '%d counting loops over a local list written as for loops' % n)] if n else []
 
 
 # ----------------------------------------------------------------------------------------------- local aliases of attribute chains
